@@ -82,6 +82,8 @@ type ChildOpts struct {
 	Parallel int
 	// OnDeath turns a dead child into a violation signature/detail (from the last journal line + stderr).
 	OnDeath func(lastCase map[string]any, stderrTail string, kind string) (sig string, detail map[string]any)
+	// OnPartial sees every child's partial result (serialised).
+	OnPartial func(batch int, p *evid.Partial)
 	// RaceInScope decides whether a race report is a violation of this property.
 	RaceInScope func(report string) bool
 }
@@ -187,6 +189,11 @@ func RunChildren(run *evid.Run, o ChildOpts) {
 				var p evid.Partial
 				if json.Unmarshal(data, &p) == nil {
 					run.Merge(&p)
+					if o.OnPartial != nil {
+						rmu.Lock()
+						o.OnPartial(b, &p)
+						rmu.Unlock()
+					}
 					return
 				}
 			}
